@@ -135,6 +135,9 @@ type Obs struct {
 	Anom      []string            // X lines (helper-level anomalies)
 	Order     []string            // S/E lines in file order: "S label" / "E label" / "F label"
 	ShellPids []int               // parent pids of the command helpers (the target shells)
+	// Overlap: labels of which two executions, both of which ran to their end (E or F line),
+	// overlapped in time (the second S line precedes the first execution's end line)
+	Overlap map[string]int
 }
 
 // ReadTrace parses the trace lines of one build id.
@@ -150,10 +153,45 @@ func (e *Env) readTrace(build string) *Obs {
 	defer f.Close()
 	sc := bufio.NewScanner(f)
 	sc.Buffer(make([]byte, 1<<20), 1<<24)
+	o.Overlap = map[string]int{}
+	type iv struct {
+		label string
+		s, e  int
+	}
+	ivs := map[string]*iv{}
+	line := 0
+	defer func() {
+		byLabel := map[string][]*iv{}
+		for _, v := range ivs {
+			if v.e > 0 {
+				byLabel[v.label] = append(byLabel[v.label], v)
+			}
+		}
+		for l, vs := range byLabel {
+			for i := range vs {
+				for j := i + 1; j < len(vs); j++ {
+					if vs[i].s < vs[j].e && vs[j].s < vs[i].e {
+						o.Overlap[l]++
+					}
+				}
+			}
+		}
+	}()
 	for sc.Scan() {
 		fs := strings.Fields(sc.Text())
 		if len(fs) < 3 || fs[1] != build {
 			continue
+		}
+		line++
+		if len(fs) > 3 {
+			switch fs[0] {
+			case "S":
+				ivs[fs[3]] = &iv{label: fs[2], s: line}
+			case "E", "F":
+				if v := ivs[fs[3]]; v != nil && v.e == 0 {
+					v.e = line
+				}
+			}
 		}
 		switch fs[0] {
 		case "S":
